@@ -55,6 +55,8 @@ impl StructAttr {
                 Fields::Unnamed(_) | Fields::Unit => None,
             }),
             tag: match variant_fields {
+                // an `untagged` variant of a tagged enum is serialized without the tag
+                Fields::Named(_) if variant_attr.untagged => None,
                 Fields::Named(_) => match enum_attr
                     .tagged()
                     .expect("The variant attribute is known to be valid at this point")
